@@ -5,7 +5,7 @@
    Proofs: Gate.v, Conv.v, Defaults.v, Ignored.v, Inventory.v. *)
 From Coq Require Import List NArith Bool.
 Import ListNotations.
-Require Import Base.Wire Base.PyStr C03.Model C03.Anti C01.Model C01.Denial C01.Gate C01.Conv C01.Defaults C01.Ignored C01.Inventory.
+Require Import Base.Wire Base.PyStr C03.Model C03.Anti C01.Model C01.Denial C01.Voice C01.Gate C01.Conv C01.Defaults C01.Ignored C01.Inventory.
 Require gen.T01.
 
 (* If the body of a command runs, then for every name n the gate asks about -- the last word Y,
@@ -62,6 +62,20 @@ Theorem C01_denial_sites :
   forall f e k, In (f, e, k) gen.T01.NOCAP_SITES -> exists kw, site_kw k = Some kw /\ kw_raises kw = true.
 Proof. split; [exact denial_shape_current|exact (nocap_sites_spec gen.T01.NOCAP_SITES nocap_sites_current)]. Qed.
 Print Assumptions C01_denial_sites.
+
+(* Channel._voice (`channel voice` / `channel devoice`), the one command helper that picks the required capability
+   from its arguments: if the MODE change is sent the caller holds the chosen #channel capability, and whenever any
+   target is somebody else than the caller it is #channel,op that he holds.  (The inventory lemma pins that no other
+   plugin function chooses its capability from its arguments and that the decision table is the modelled one.) *)
+Theorem C01_voice :
+  forall d channel nicks caller targets,
+    voice_body d channel nicks caller = VMode targets ->
+    targets = voice_targets nicks caller /\
+    (exists cap, makeChannelCapability channel (voice_word nicks caller) = Ok cap /\ holds d cap = Ok true) /\
+    ((exists n, In n targets /\ n <> caller) ->
+     exists cap, makeChannelCapability channel OP = Ok cap /\ holds d cap = Ok true).
+Proof. exact voice_gate. Qed.
+Print Assumptions C01_voice.
 
 (* If the body runs, every gating converter at a top-level position of the spec asked for its
    capability (in the state the preceding converters left) and was answered True. *)
